@@ -6,6 +6,7 @@ package main
 //	func Insert(colNames []string, conf SQLConfig) string                     (internal/io/sql)  → SqB
 //	func NewArgBuilder(col column.Column) (ArgBuilder, error)                 (internal/io/sql)  → SqAB per column package
 //	func (qf QFrame) ColumnNames() []string                                   (qframe.go)        → SqCN
+//	func (qf QFrame) ColumnTypes() []types.DataType                           (qframe.go)        → SqCT
 //	func (qf QFrame) ToSQL(tx *sql.Tx, confFuncs ...qsql.ConfigFunc) error    (qframe.go)        → SqT
 //
 // Everything is found by ROLE, never by identifier name. In `Insert` the `[]string` parameter is the names, the parameter
@@ -751,6 +752,99 @@ func (c *wctx) columnNames() *lt {
 	return c.cnBlock(fd.Body.List, sc, true, 0)
 }
 
+// ---------------------------------------------------------------------------------------------------------------------
+// ColumnTypes (SqCT): `types := make([]types.DataType, len(recv.columns)); for i, col := range recv.columns {
+// types[i] = col.DataType() }; return types`
+
+func ctop(stmts []ast.Stmt) *lt { return ls("SqCT.opaque", stmtsText(stmts)) }
+
+// the type `[]<types>.DataType` where <types> is the imported package …/types (not a local of that name)
+func (c *wctx) isDataTypeSlice(sc wscope, e ast.Expr) bool {
+	at, ok := e.(*ast.ArrayType)
+	if !ok || at.Len != nil {
+		return false
+	}
+	sel, ok := at.Elt.(*ast.SelectorExpr)
+	return ok && sel.Sel.Name == "DataType" && c.isPkg(sc, sel.X, "/types")
+}
+
+// `<the column of the loop>.DataType()` (also through the embedded `Column`)
+func (c *wctx) isDataTypeCall(sc wscope, e ast.Expr) bool {
+	call, ok := unparen(e).(*ast.CallExpr)
+	if !ok || len(call.Args) != 0 {
+		return false
+	}
+	sel, ok := call.Fun.(*ast.SelectorExpr)
+	return ok && sel.Sel.Name == "DataType" && c.isCol(sc, sel.X, "col")
+}
+
+func (c *wctx) ctBlock(stmts []ast.Stmt, sc wscope, top bool, depth int) *lt {
+	if len(stmts) == 0 {
+		if top {
+			return ls("SqCT.opaque", "no return")
+		}
+		return lh("SqCT.done")
+	}
+	if depth > 40 {
+		return ctop(stmts)
+	}
+	rest := stmts[1:]
+	next := func(sc wscope) *lt { return c.ctBlock(rest, sc, top, depth+1) }
+	switch s := stmts[0].(type) {
+	case *ast.AssignStmt:
+		if len(s.Lhs) != 1 || len(s.Rhs) != 1 {
+			break
+		}
+		// types := make([]types.DataType, len(recv.columns))
+		if id, ok := s.Lhs[0].(*ast.Ident); ok && s.Tok == token.DEFINE && id.Name != "_" && !sc.has("res") {
+			if _, bound := sc[id.Name]; bound {
+				break
+			}
+			call, ok := unparen(s.Rhs[0]).(*ast.CallExpr)
+			if ok && wUnbound(sc, call.Fun, "make") && len(call.Args) == 2 && c.isDataTypeSlice(sc, call.Args[0]) &&
+				c.lenOf(sc, call.Args[1], c.isCols(sc)) {
+				inner := sc.clone()
+				inner[id.Name] = wsym{kind: "res"}
+				return lh("SqCT.alloc", next(inner))
+			}
+			break
+		}
+		// types[i] = <column>.DataType()
+		if ix, ok := s.Lhs[0].(*ast.IndexExpr); ok && s.Tok == token.ASSIGN && c.kindOf(sc, ix.X) == "res" && c.kindOf(sc, ix.Index) == "colpos" {
+			if c.isDataTypeCall(sc, s.Rhs[0]) {
+				return lh("SqCT.setType", next(sc))
+			}
+		}
+	case *ast.RangeStmt:
+		if s.Tok != token.DEFINE || !c.recvField(sc, s.X, c.colsField) || sc.has("colpos") || sc.has("col") {
+			break
+		}
+		inner := sc.clone()
+		if !wBind(inner, s.Key, wsym{kind: "colpos"}) || !wBind(inner, s.Value, wsym{kind: "col"}) {
+			break
+		}
+		return lh("SqCT.forCols", c.ctBlock(s.Body.List, inner, false, depth+1), next(sc))
+	case *ast.ReturnStmt:
+		if len(s.Results) == 1 && c.kindOf(sc, s.Results[0]) == "res" {
+			return lh("SqCT.ret")
+		}
+	}
+	return ctop(stmts)
+}
+
+func (c *wctx) columnTypes() *lt {
+	fd, ok := c.root["QFrame.ColumnTypes"]
+	if !ok {
+		return ls("SqCT.opaque", "?missing")
+	}
+	sc, ok := c.topScope(fd)
+	res := fd.Type.Results
+	if !ok || res == nil || len(res.List) != 1 || len(res.List[0].Names) > 0 || !c.isDataTypeSlice(sc, res.List[0].Type) {
+		return ls("SqCT.opaque", "signature")
+	}
+	return c.ctBlock(fd.Body.List, sc, true, 0)
+}
+
 func tqop(stmts []ast.Stmt) *lt { return ls("SqT.opaque", stmtsText(stmts)) }
 
 // a non-nil error: built on the spot, or the error variable / the frame's error where it is known to be non-nil
@@ -1043,6 +1137,7 @@ func sqlWriteLean(repo string, rootFiles, strFiles map[string]*ast.File) string 
 	b.WriteString("/-- the clauses of the type switch of `NewArgBuilder`, by column package: (package, clause) -/\ndef argBuilderClauses : List (String × SqAB) := [" + strings.Join(clauses, ", ") + "]\n\n")
 	b.WriteString("/-- what `NewArgBuilder` does for a column none of the clauses applies to -/\ndef argBuilderDefault : SqAB := " + dflt.lean() + "\n\n")
 	b.WriteString("/-- `QFrame.ColumnNames` -/\ndef columnNamesAst : SqCN :=\n  " + w.columnNames().lean() + "\n\n")
+	b.WriteString("/-- `QFrame.ColumnTypes` -/\ndef columnTypesAst : SqCT :=\n  " + w.columnTypes().lean() + "\n\n")
 	b.WriteString("/-- `QFrame.ToSQL` -/\ndef toSqlAst : SqT :=\n  " + w.toSQL().lean() + "\n\n")
 	b.WriteString("end QF.Gen\n")
 	return b.String()
